@@ -406,6 +406,9 @@ func (a *c07A) source(g *c07reg) string {
 		fmt.Fprintf(&b, "func Run() {\n\t%s\n\thost.Sink(%s)\n\tOut = \"sink\"\n}\n", body, call)
 	case "expr":
 		fmt.Fprintf(&b, "func Run() {\n\t%s\n\tOut = r%d(%s)\n}\n", body, g.id(sig.Out[0]), call)
+	case "cond":
+		// the call is the condition of an if statement (callBin's branching form)
+		fmt.Fprintf(&b, "func Run() {\n\t%s\n\tif %s {\n\t\tOut = \"t\"\n\t} else {\n\t\tOut = \"f\"\n\t}\n}\n", body, call)
 	case "funcvar":
 		fmt.Fprintf(&b, "func Run() {\n\t%s\n\tf := host.F\n\t%s := f(%s)\n\tOut = %s\n}\n", body, strings.Join(rxs, ", "), strings.Join(argx, ", "), rend)
 	}
@@ -476,6 +479,9 @@ func (h *c07h) genA1(r *rng, region string) *c07A {
 		shapes = []string{"define", "define", "assign", "return", "nested", "funcvar", "blank", "hostnest"}
 	}
 	a.shape = r.pick(shapes)
+	if no == 1 && sig.Out[0].K == ckBool && r.chance(50) {
+		a.shape = "cond"
+	}
 	forms := []string{"lit", "lit", "var"}
 	if a.mode == "plain" && len(sig.In) >= 1 {
 		forms = append(forms, "mk", "hostmk")
@@ -695,7 +701,7 @@ func (h *c07h) runA(j *c07job, a *c07A, region string) {
 	switch a.shape {
 	case "blank":
 		rts, exp = sig.Out[1:], expRes[1:]
-	case "expr":
+	case "expr", "cond":
 		rts, exp = sig.Out[:1], expRes[:1]
 	default:
 		rts, exp = sig.Out, expRes
